@@ -465,6 +465,38 @@ def try_rg(scc, facts):
         if gbb in dec.reachable_from(cont) and sbb in dec.reachable_from(gbb) and gbb not in dec.reachable_from(sbb):
             good = True
     if not good:
+        # the same test extracted into a helper: a call that precedes the store, receives `entries.len()` as an argument and
+        # whose callee rejects (in a loop) every value >= that parameter; its Err is propagated (the store is not reachable
+        # from the call's failing side because `?` returns)
+        for cbb, t in dec.calls():
+            hb = facts.body(t.callee, _fuzzy=False)
+            if hb is None or hb.crate != dec.crate:
+                continue
+            if not (sbb in dec.reachable_from(cbb) and cbb not in dec.reachable_from(sbb)):
+                continue
+            for k, a in enumerate(t.args):
+                e = strip_casts(expr_of(dec, a))
+                if not (e[0] == "call" and e[1].endswith("::len") and "entries" in show(dec, e) and len(calls_of(e)) == 1):
+                    continue
+                for gbb, op, a2, c2, t_true, t_false in _cmp_guards(hb):
+                    if op == "Ge":
+                        bail, cont = t_true, t_false
+                    elif op == "Lt":
+                        bail, cont = t_false, t_true
+                    else:
+                        continue
+                    c2 = strip_casts(c2)
+                    if c2 != ("param", k + 1):
+                        continue
+                    # the failing edge returns Err, the passing edge loops
+                    from ..typestate import ret_class
+                    bail_rets = [rb for rb in hb.return_blocks() if rb in hb.reachable_from(bail)]
+                    if gbb in hb.reachable_from(cont) and bail_rets and gbb not in hb.reachable_from(bail):
+                        good = True
+        if good:
+            why.append("decode_format2_entry(): a helper called before entry.child_indices is stored rejects, in a loop, every "
+                       "index >= its parameter, which receives entries.len()")
+            return "R-g memoised evaluation over strictly prior indices: " + "; ".join(why) + " => recursion depth <= 2"
         return None
     why.append("decode_format2_entry(): `i >= entries.len()` -> Err is tested in a loop before entry.child_indices is stored")
     return "R-g memoised evaluation over strictly prior indices: " + "; ".join(why) + " => recursion depth <= 2"
